@@ -69,12 +69,12 @@ var corpus = []corpusCase{
 	fixed("repaired: field key equals fragment field name", &doc{ops: []*opDef{q("K1", fld("node", fld("__typename"), fa("User", "id"), on("User", fld("name"))))}}),
 	fixed("repaired: field key differs from fragment field name in case only", &doc{ops: []*opDef{q("K2", fld("node", fld("__typename"), fa("user", "id"), on("User", fld("name"))))}}),
 	fixed("repaired: typename__ next to __typename", &doc{ops: []*opDef{q("K3", fld("node", fld("__typename"), fa("typename__", "id")))}}),
-	{note: "known: enum constants that differ only in letter case", build: func() (*schemaDef, *doc, string) {
+	{note: "repaired: enum constants that differ only in letter case", build: func() (*schemaDef, *doc, string) {
 		s := fixedSchema()
 		s.byName["Color"].values = []string{"RED", "red", "GREEN"}
-		return s, &doc{ops: []*opDef{q("K4", fld("me", fld("color")))}}, "known: enum constants that differ only in letter case"
+		return s, &doc{ops: []*opDef{q("K4", fld("me", fld("color")))}}, "repaired: enum constants that differ only in letter case"
 	}},
-	{note: "known: enum named like a generated <Op>Data type", build: func() (*schemaDef, *doc, string) {
+	{note: "repaired: enum named like a generated <Op>Data type", build: func() (*schemaDef, *doc, string) {
 		s := fixedSchema()
 		s.byName["Color"].name = "K5Data"
 		s.byName["K5Data"] = s.byName["Color"]
@@ -86,13 +86,38 @@ var corpus = []corpusCase{
 				}
 			}
 		}
-		return s, &doc{ops: []*opDef{q("K5", fld("me", fld("color")))}}, "known: enum named like a generated <Op>Data type"
+		return s, &doc{ops: []*opDef{q("K5", fld("me", fld("color")))}}, "repaired: enum named like a generated <Op>Data type"
 	}},
 	fixed("repaired: a member that needs two underscores (keys User and User_, inline fragment on User)", &doc{
 		ops: []*opDef{q("K6", fld("node", fld("__typename"), fa("User", "id"), fa("User_", "id"), on("User", fld("name"))))}}),
 	fixed("repaired: inline fragment on User next to a spread of a fragment named User", &doc{
 		ops:   []*opDef{q("K7", fld("node", fld("__typename"), on("User", fld("name")), sp("User")))},
 		frags: []*fragDef{{name: "User", cond: "User", sels: []*sel{fld("login")}}}}),
+	{note: "repaired: enums named string and json next to a constant clash across enums (A.B_C, AB.C)", build: func() (*schemaDef, *doc, string) {
+		s := fixedSchema()
+		s.types = append([]*typeDef{
+			{kind: "enum", name: "string", values: []string{"x"}},
+			{kind: "enum", name: "json", values: []string{"y"}},
+			{kind: "enum", name: "A", values: []string{"B_C"}},
+			{kind: "enum", name: "AB", values: []string{"C"}},
+		}, s.types...)
+		for _, d := range s.types {
+			s.byName[d.name] = d
+		}
+		u := s.byName["User"]
+		u.fields = append(u.fields, fieldDef{"e1", named("string")}, fieldDef{"e2", named("json")}, fieldDef{"e3", named("A")}, fieldDef{"e4", nonNull(named("AB"))})
+		return s, &doc{ops: []*opDef{q("K9", fld("node", fld("__typename"), on("User", fld("e1"), fld("e2"), fld("e3"), fld("e4"))))}}, "repaired: enums named string and json next to a constant clash across enums"
+	}},
+	{note: "known: an enum named like a sel helper type", build: func() (*schemaDef, *doc, string) {
+		s := fixedSchema()
+		s.types = append([]*typeDef{{kind: "enum", name: "selNode0", values: []string{"x"}}}, s.types...)
+		for _, d := range s.types {
+			s.byName[d.name] = d
+		}
+		u := s.byName["User"]
+		u.fields = append(u.fields, fieldDef{"e1", named("selNode0")})
+		return s, &doc{ops: []*opDef{q("K8", fld("node", fld("__typename"), on("User", fld("e1"))))}}, "known: an enum named like a sel helper type"
+	}},
 	fixed("invalid: unknown field", &doc{ops: []*opDef{q("I1", fld("node", fld("nope")))}}),
 	fixed("valid but rejected by the generator: fragments on an interface without __typename", &doc{ops: []*opDef{q("I2", fld("node", on("User", fld("name"))))}}),
 }
